@@ -186,6 +186,7 @@ def zero_strain_rate_cases(rng, tier):
 GENERIC_FLOWS = ["simple", "pure", "general", "axisym"]
 ZERO_STRAIN_FLOWS = ["spin", "shear_then_spin", "stopping"]       # L exactly antisymmetric / exactly zero for (part of) the history
 VARYING_FLOWS = ["time", "position"]
+PLANAR_FLOWS = MT.PLANAR_FLOWS      # exactly planar velocity gradients with a non-zero in-plane trace (x-z plane and any coordinate plane)
 Q_KINDS = ["haar", "signed_perm", "about_spin_axis"]
 
 
@@ -388,6 +389,19 @@ def integrated_plan(rng, tier):
         sc = MT.scenario(rng, regime=int((4, 6)[r % 2]), n=int(rng.integers(3, 10)), nupd=int(rng.integers(1, 4)),
                          lkind=VARYING_FLOWS[r % 2])
         add(sc, Q_KINDS[r % 2], PICK_MODES[r % 4])
+    # flows exactly confined to a coordinate plane with a non-zero in-plane trace: the Haar-rotated partner is not planar any
+    # more, the axis-permuted partner lies in another (or the same) coordinate plane -- a strain-rate scale (or anything else)
+    # taken from a 2-D closed form in one presentation and from the general 3-D routine in the other is not frame invariant.
+    # Own PRNG stream: the triples above are unchanged.
+    prng = np.random.default_rng([int(rng.integers(0, 2**31 - 1)), 0xC04D])
+    for r in range(1 if tier == "quick" else 6):
+        for j, lk in enumerate(PLANAR_FLOWS):
+            sc = MT.scenario(prng, regime=int((4, 6)[(j + r) % 2]), n=int(prng.integers(4, 10)), nupd=int(prng.integers(1, 3)),
+                             lkind=lk, tkind=("random", "clustered")[int(prng.integers(2))],
+                             strain=float(prng.uniform(0.4, 0.7)))
+            sc["params"]["gbm_mobility"] = float(prng.uniform(50, 200))       # the fractions must move ...
+            sc["params"]["gbs_threshold"] = float(prng.uniform(0.0, 0.3))     # ... and few grains sit on the sliding floor
+            plan.append((sc, int(prng.integers(0, 2**31 - 1)), ("haar", "signed_perm")[(j // 2 + r) % 2], PICK_MODES[(j + r) % 4]))
     return plan
 
 
@@ -405,7 +419,8 @@ def run(chk):
                        "the original call repeated afterwards (bit-identical, inputs untouched); boundary stream: strain rate exactly zero (rigid rotation, rest) with an exactly "
                        "antisymmetric rotated partner; integrated: LSODA history triples original / rotated frame (L rotated as strain rate + spin, so exactly antisymmetric stays "
                        "exactly antisymmetric) / two-fold relabelled initial texture over generic flows AND flows with exactly zero strain rate for all or part of the history "
-                       "(pure spin, shear then spin, stopping, rest), every history trace-validated against the extracted update / rhs model; non-trivial = rates not all zero")
+                       "(pure spin, shear then spin, stopping, rest) AND flows exactly confined to a coordinate plane with a non-zero in-plane trace (x-z plane and random plane; "
+                       "compaction + shear, uniaxial shortening), every history trace-validated against the extracted update / rhs model; non-trivial = rates not all zero")
     bad, mon = [], []
     rng = np.random.default_rng(chk.seed)
     if br.drivers.get("core", 1) is None:
